@@ -27,6 +27,8 @@ def targets(path):
         meta = path.parent / "meta.json"
         if meta.exists():
             m = json.loads(meta.read_text())
+            if str(m.get("status", "")).startswith("neutralised"):
+                return []  # no longer observable on the current tree (see status_note)
             p = m.get("property") or m.get("properties")
             props = [p] if isinstance(p, str) else list(p or [])
             props += [x for x in m.get("also_caught_by", []) if x not in props]
@@ -48,6 +50,9 @@ def main():
     rows = []
     for patch in patches:
         name = patch.stem if patch.name != "patch.diff" else "seeded/" + patch.parent.name
+        if not targets(patch):
+            print(f"{name:55s} -   skipped (no target property / neutralised)", flush=True)
+            continue
         wt = tempfile.mkdtemp(prefix="pyrefact-mut-")
         os.rmdir(wt)
         r = sh(f"git -C {REPO} worktree add -q --detach {wt} HEAD")
@@ -60,6 +65,7 @@ def main():
                                stdout=subprocess.PIPE, stderr=subprocess.STDOUT)
             if r.returncode:
                 rows.append((name, "-", "patch does not apply: " + r.stdout[-300:]))
+                print(f"{name:55s} -   PATCH DOES NOT APPLY to the current HEAD (regenerate it)", flush=True)
                 continue
             tests = "skipped"
             if run_tests:
